@@ -5,7 +5,7 @@ import math
 import warnings
 import numpy as np
 
-from harness.proj import to_rat, rat_close
+from harness.proj import to_rat, rat_close, relayout
 from harness.core import Machinery
 
 LEVEL = "model_checking"
@@ -75,7 +75,13 @@ def replay_rank(ctx, metrics, cstat, c, k):
         D2 = dscore(metrics, f(np.array(obs, dtype=float)), ens)
         D3 = dscore(metrics, obs, f(ens))
         D4 = dscore(metrics, obs, ens[:, ::-1])
-        if max(abs(D2 - D), abs(D3 - D), abs(D4 - D)) > 1e-12:
+        with warnings.catch_warnings(), np.errstate(all="ignore"):
+            warnings.simplefilter("ignore")
+            try:
+                D5 = float(metrics.dscore(relayout(np.array(obs, dtype=float), k), relayout(ens, k + sum(perm))))
+            except (ValueError, TypeError):
+                D5 = D          # this storage layout is not accepted by the wrapper (Python exception): not a call of the property
+        if max(abs(D2 - D), abs(D3 - D), abs(D4 - D), abs(D5 - D)) > 1e-12:
             ctx.violation("dscore:invariance", "D=%r, after monotone map of obs %r, of forecasts %r, member reversal %r" % (D, D2, D3, D4),
                           dict(case, obs=obs))
             return
